@@ -147,6 +147,96 @@ fn uses_nonfinite_leaf(p: &Prog, vars: &[f32]) -> bool {
     })
 }
 
+/// Context::if_nonzero_else / less_than / less_than_or_equal are built from
+/// and / or / not / compare; their documented meaning is the specification
+fn composite_unit(cx: &mut Cx) {
+    #[derive(Clone, Copy, Debug)]
+    enum L {
+        X,
+        Y,
+        K(f32),
+    }
+    let leaves = [L::X, L::Y, L::K(0.0), L::K(-0.0), L::K(1.0), L::K(-1.0), L::K(2.0), L::K(3.7)];
+    let grid = [-2.0f32, -1.0, -0.0, 0.0, 0.5, 1.0, 3.0];
+    let node = |ctx: &mut Context, l: L| match l {
+        L::X => ctx.x(),
+        L::Y => ctx.y(),
+        L::K(c) => ctx.constant(c),
+    };
+    let val = |l: L, x: f32, y: f32| match l {
+        L::X => x,
+        L::Y => y,
+        L::K(c) => c,
+    };
+    let mut sub = 0u64;
+    let (mut vals, mut amb) = (vec![], vec![]);
+    for kind in 0..3 {
+        for a in leaves {
+            for b in leaves {
+                for c in if kind == 0 { &leaves[..] } else { &leaves[..1] } {
+                    let s = sub;
+                    sub += 1;
+                    if !cx.case(s) {
+                        continue;
+                    }
+                    cx.add("cases", 1);
+                    cx.add("nontrivial", 1);
+                    let name = ["if_nonzero_else", "less_than", "less_than_or_equal"][kind];
+                    let desc = || json!({"constructor": name, "operands": if kind == 0 { format!("{a:?}, {b:?}, {c:?}") } else { format!("{a:?}, {b:?}") }});
+                    let mut ctx = Context::new();
+                    let (na, nb, nc) = (node(&mut ctx, a), node(&mut ctx, b), node(&mut ctx, *c));
+                    let built = guard(|| match kind {
+                        0 => ctx.if_nonzero_else(na, nb, nc),
+                        1 => ctx.less_than(na, nb),
+                        _ => ctx.less_than_or_equal(na, nb),
+                    });
+                    let n = match built {
+                        Ok(Ok(n)) => n,
+                        Ok(Err(e)) => {
+                            cx.violation(format!("{name} returned an error for valid nodes"), desc(), format!("{e:?}"));
+                            continue;
+                        }
+                        Err(e) => {
+                            cx.violation(format!("{name} panicked {}", panic_site(&e)), desc(), e);
+                            continue;
+                        }
+                    };
+                    let flat = Flat::from_ctx(&ctx, &[n]);
+                    for x in grid {
+                        for y in grid {
+                            let args: Vec<f32> = flat.vars.iter().map(|v| if *v == var_by_index(0) { x } else { y }).collect();
+                            flat.eval_all(&args, &mut vals, &mut amb);
+                            let got = vals[flat.roots[0]];
+                            let (va, vb, vc) = (val(a, x, y), val(b, x, y), val(*c, x, y));
+                            let want = match kind {
+                                0 => {
+                                    if va != 0.0 {
+                                        vb
+                                    } else {
+                                        vc
+                                    }
+                                }
+                                1 => (va < vb) as u8 as f32,
+                                _ => (va <= vb) as u8 as f32,
+                            };
+                            cx.add("evals", 1);
+                            cx.add("value_comparisons", 1);
+                            if !(got == want) {
+                                cx.violation(
+                                    format!("composite constructor {name} does not have its documented meaning"),
+                                    desc(),
+                                    format!("at x={x:?} y={y:?}: graph `{}` evaluates to {got:?}, documented meaning gives {want:?}", flat.describe()),
+                                );
+                                break;
+                            }
+                        }
+                    }
+                }
+            }
+        }
+    }
+}
+
 #[derive(Clone, Debug)]
 enum Unit {
     Depth1,
@@ -154,6 +244,9 @@ enum Unit {
     Depth2Binary(B),
     Depth3 { outer: usize },
     Deep,
+    /// the composite constructors if_nonzero_else, less_than,
+    /// less_than_or_equal against their documented meaning
+    Composite,
 }
 
 fn all_any() -> Vec<Result<U, B>> {
@@ -161,7 +254,7 @@ fn all_any() -> Vec<Result<U, B>> {
 }
 
 fn units(tier: Tier) -> Vec<Unit> {
-    let mut v = vec![Unit::Depth1, Unit::Deep];
+    let mut v = vec![Unit::Depth1, Unit::Deep, Unit::Composite];
     for u in refsem::UNARY {
         v.push(Unit::Depth2Unary(u));
     }
@@ -481,7 +574,7 @@ impl Check for C12 {
     }
     fn meta(&self, tier: Tier) -> Meta {
         Meta {
-            rule: "case = expression tree; all trees of depth <= 2 (thorough: a family of depth-3 trees) over ALL 30 opcodes with leaves {x, y} and constants {0,-0,1,-1,2,NaN,3.7} (thorough: + 0.5, +-inf, 1e-40), including shared sub-trees (both operands the same node); each is built (a) through the public Context constructors and (b) as a Tree and imported; the graph the context holds is evaluated with ref32 at every point of an 11x11 grid (incl. +-0, 1e20, inf, NaN) and compared under == with the operation-by-operation evaluation of the un-rewritten expression whenever that stays finite throughout; building twice gives the same node, import(export(n)) = n, separately built equal trees are == and hash equally, and so does the twin tree whose zero / NaN constants carry the other sign bit whenever the library calls it ==; chains, unary chains and balanced trees of 1e5 (thorough 1e6) nodes are built, compared, hashed, imported, exported and dropped on a 256 KiB stack; non-trivial = at least one point was compared".into(),
+            rule: "case = expression tree; all trees of depth <= 2 (thorough: a family of depth-3 trees) over ALL 30 opcodes with leaves {x, y} and constants {0,-0,1,-1,2,NaN,3.7} (thorough: + 0.5, +-inf, 1e-40), including shared sub-trees (both operands the same node); each is built (a) through the public Context constructors and (b) as a Tree and imported; the graph the context holds is evaluated with ref32 at every point of an 11x11 grid (incl. +-0, 1e20, inf, NaN) and compared under == with the operation-by-operation evaluation of the un-rewritten expression whenever that stays finite throughout; the composite constructors if_nonzero_else / less_than / less_than_or_equal over all operand choices from {x, y, 0, -0, 1, -1, 2, 3.7} against their documented meaning on a 7x7 grid; building twice gives the same node, import(export(n)) = n, separately built equal trees are == and hash equally, and so does the twin tree whose zero / NaN constants carry the other sign bit whenever the library calls it ==; chains, unary chains and balanced trees of 1e5 (thorough 1e6) nodes are built, compared, hashed, imported, exported and dropped on a 256 KiB stack; non-trivial = at least one point was compared".into(),
             bounds: match tier {
                 Tier::Quick => "depth <= 2, 9 leaves".into(),
                 Tier::Thorough => "depth <= 2 with 13 leaves; depth 3 = outer(op(inner(l,l), l), l) family".into(),
@@ -501,6 +594,7 @@ impl Check for C12 {
         let mut sub = 0u64;
         match units(tier)[unit].clone() {
             Unit::Deep => deep_unit(cx, tier),
+            Unit::Composite => composite_unit(cx),
             Unit::Depth1 => {
                 for_depth1(&base, nl, &mut |p| check_prog(cx, &mut sub, p, &pts));
             }
